@@ -114,6 +114,15 @@ func propC12(c *Ctx) {
 			ops = append(ops, fmt.Sprintf("enc %d %s", langVals[(li+k)%10], hx(c.randBytes(entSizes[k%5]))))
 			ops = append(ops, fmt.Sprintf("newmd %d %d", 12+3*(k%5), langVals[(lj+k)%10]))
 		}
+		// error paths too: wrong checksum (two words swapped), wrong count, unknown word
+		for _, x := range []int{li, lj} {
+			t := strings.Split(valid[x], " ")
+			t[1], t[7] = t[7], t[1]
+			ops = append(ops, fmt.Sprintf("chk %d %s", langVals[x], hx([]byte(strings.Join(t, " ")))),
+				fmt.Sprintf("chk %d %s", langVals[x], hx([]byte(strings.Join(t[:11], " ")))),
+				fmt.Sprintf("chk %d %s", langVals[x], hx([]byte(valid[x]+"x"))),
+				fmt.Sprintf("chk %d %s", langVals[x], hx([]byte(valid[x]))))
+		}
 		ops = append(ops, fmt.Sprintf("seed %s %s", hx([]byte(valid[li])), hx([]byte("pw"))), fmt.Sprintf("lstr %d", li), "lstr -1",
 			fmt.Sprintf("chk 100 %s", hx([]byte(valid[2]))), fmt.Sprintf("chk %d %s", langVals[li], hx([]byte(valid[lj]))))
 		c.rng.Shuffle(len(ops), func(a, b int) { ops[a], ops[b] = ops[b], ops[a] })
@@ -128,9 +137,29 @@ func propC12(c *Ctx) {
 		}
 	}
 	// same language hammered by many goroutines (the once-vs-nil-check window)
-	reps := 6
+	reps := 3
 	if !c.quick {
 		reps = 60
+	}
+	// cold start of ONE language by 32 goroutines, each validating a different valid sentence; the
+	// sentences of a scenario cover a third of the list (thorough: three scenarios cover every word), so a
+	// lookup path that is only used while the table is being built is exercised on every word
+	for li := range langVals {
+		l := int64(langVals[li])
+		for part := 0; part < 3; part++ {
+			if c.quick && part != (li+int(r.Seed))%3 {
+				continue
+			}
+			ops := []string{}
+			for g := 0; g < 32; g++ {
+				e := c.randBytes(32)
+				for p := 0; p < 23; p++ {
+					setGroup(e, p, (part*736+g*23+p)%2048)
+				}
+				ops = append(ops, fmt.Sprintf("chk %d %s", l, hx([]byte(strings.ReplaceAll(c.specSentence(l, e), "　", " ")))))
+			}
+			c.concScenario("same-language-cold-start:word-cover", 32, ops)
+		}
 	}
 	for k := 0; k < reps; k++ {
 		li := k % 10
